@@ -275,6 +275,16 @@ class C(Check):
                     ('d_column_exchange', ('d_column_exchange', '$A', j1, j2), [_swap(row, j1, j2) for row in A]),
                     ('d_rref0', ('d_rref', '$A', False), None), ('d_rref1', ('d_rref', '$A', True), None),
                     ('d_dumps_loads', ('d_dumps_loads', '$A'), A)]
+            # the result object is one of the operands
+            SqL, SqR = rand_matrix(rng, n, n, kind, 'random'), rand_matrix(rng, m, m, kind, 'random')
+            spec += [('d_mul_into_right', ('d_mul_into_right', mk(SqL), '$A'), mmul(SqL, A)),
+                     ('d_mul_dense_into_right', ('d_mul_dense_into_right', mk(SqL), '$A'), mmul(SqL, A)),
+                     ('d_mul_into_left', ('d_mul_into_left', '$A', mk(SqR)), mmul(A, SqR)),
+                     ('d_add_into_right', ('d_add_into_right', '$A', '$C'), madd(A, C2)), ('d_add_into_left', ('d_add_into_left', '$A', '$C'), madd(A, C2)),
+                     ('d_elementwise_mul_into_right', ('d_elementwise_mul_into_right', '$A', '$C'), [[x * y for x, y in zip(ra, rc)] for ra, rc in zip(A, C2)]),
+                     ('d_elementwise_mul_into_left', ('d_elementwise_mul_into_left', '$A', '$C'), [[x * y for x, y in zip(ra, rc)] for ra, rc in zip(A, C2)]),
+                     ('d_mul_scalar_self', ('d_mul_scalar_self', '$A', s.recipe()), [[x * s for x in row] for row in A]),
+                     ('d_add_scalar_self', ('d_add_scalar_self', '$A', s.recipe()), [[x + s for x in row] for row in A])]
             if n >= 2:
                 dr = rng.randrange(n)
                 spec.append(('d_row_del', ('d_row_del', '$A', dr), A[:dr] + A[dr + 1:]))
